@@ -39,9 +39,13 @@ class Conc(V):
 
 
 class Abs(V):
-    __slots__ = ("k", "deps", "sym", "cap", "sign", "neg", "lb", "ub")
+    __slots__ = ("k", "deps", "sym", "cap", "sign", "neg", "lb", "ub", "lin", "mono")
 
-    def __init__(self, k, deps=frozenset(), sym=None, cap=None, sign=None, neg=frozenset(), lb=None, ub=None):
+    def __init__(self, k, deps=frozenset(), sym=None, cap=None, sign=None, neg=frozenset(), lb=None, ub=None, lin=None, mono=None):
+        # linear domain in ONE designated symbol w (e.g. the gross wage): lin = (a, b) means value == a * w + b exactly;
+        # mono = 'inc' means non-decreasing in w (implied by lin with a >= 0)
+        self.lin = lin
+        self.mono = "inc" if (lin is not None and lin[0] >= 0) else mono
         # numeric bounds (non-strict), None = unknown; a lower bound >= 0 implies the sign
         self.lb, self.ub = lb, ub
         if sign is None and lb is not None and lb >= 0:
@@ -176,6 +180,45 @@ def ub_of(av):
     return None
 
 
+def lin_of(av):
+    """(a, b) with value == a * w + b, or None; concrete numbers are (0, v)"""
+    if isinstance(av, Conc) and isinstance(av.v, (int, float)):
+        return (0.0, float(av.v))
+    if isinstance(av, Abs):
+        return av.lin
+    return None
+
+
+def mono_of(av):
+    """'inc' (non-decreasing in w; constants included) or None"""
+    if isinstance(av, (Conc, OneOf)) and alts(av) is not None and all(isinstance(x, (int, float)) for x in alts(av)):
+        return "inc"
+    if isinstance(av, Abs):
+        return av.mono
+    return None
+
+
+def lin_binop(op, a, b):
+    la, lb_ = lin_of(a), lin_of(b)
+    if la is None or lb_ is None:
+        return None
+    (a1, b1), (a2, b2) = la, lb_
+    if isinstance(op, ast.Add):
+        return (a1 + a2, b1 + b2)
+    if isinstance(op, ast.Sub):
+        return (a1 - a2, b1 - b2)
+    if isinstance(op, ast.Mult):
+        if a1 == 0:
+            return (b1 * a2, b1 * b2)
+        if a2 == 0:
+            return (a1 * b2, b1 * b2)
+        return None
+    if isinstance(op, ast.Div):
+        if a2 == 0 and b2 != 0:
+            return (a1 / b2, b1 / b2)
+    return None
+
+
 def _both(f, x, y):
     return f(x, y) if x is not None and y is not None else None
 
@@ -266,9 +309,10 @@ def join(a, b):
     sg = _sign_join(sign_of(a), sign_of(b))
     ng = neg_of(a) | neg_of(b)
     lb, ub = _both(min, lb_of(a), lb_of(b)), _both(max, ub_of(a), ub_of(b))
+    lin = lin_of(a) if (lin_of(a) is not None and lin_of(a) == lin_of(b)) else None  # two branches with the same form
     if isinstance(a, Abs) and isinstance(b, Abs) and a.sym and a.sym == b.sym:
-        return Abs(a.k | b.k, a.deps | b.deps, sym=a.sym, sign=sg, neg=ng, lb=lb, ub=ub)
-    return Abs(kinds(a) | kinds(b), a.deps | b.deps, sign=sg, neg=ng, lb=lb, ub=ub)
+        return Abs(a.k | b.k, a.deps | b.deps, sym=a.sym, sign=sg, neg=ng, lb=lb, ub=ub, lin=lin)
+    return Abs(kinds(a) | kinds(b), a.deps | b.deps, sign=sg, neg=ng, lb=lb, ub=ub, lin=lin)
 
 
 def _minmax_abs(fname, src, deps):
@@ -301,7 +345,9 @@ def _minmax_abs(fname, src, deps):
     if sg is None and not (lb is not None and lb >= 0):
         for x in src:
             ng |= neg_of(x)
-    return Abs(ks, deps, cap=cap, sign=sg, neg=ng, lb=lb, ub=ub)
+    mono = "inc" if src and all(mono_of(x) for x in src) else None
+    lin = lin_of(src[0]) if len(src) == 1 else None
+    return Abs(ks, deps, cap=cap, sign=sg, neg=ng, lb=lb, ub=ub, lin=lin, mono=mono)
 
 
 def bounds_binop(op, a, b):
@@ -649,7 +695,7 @@ class Interp:
             sg = "pos"
         elif sg is None and lb is not None and lb >= 0:
             sg = "nonneg"
-        return Abs(v.k, v.deps, sym=v.sym, cap=v.cap, sign=sg, neg=v.neg, lb=lb, ub=ub)
+        return Abs(v.k, v.deps, sym=v.sym, cap=v.cap, sign=sg, neg=v.neg, lb=lb, ub=ub, lin=v.lin, mono=v.mono)
 
     def clamped_difference(self, n, env, g):
         """`max(0, need - income)`: what is subtracted must itself be non-negative, or the clamped amount exceeds
@@ -702,7 +748,7 @@ class Interp:
             v = env[n.id]
             if isinstance(v, Abs) and "unbound" in v.k:
                 self.E("maybe-unbound", n, n.id, guards=g)
-                v = Abs(v.k - {"unbound"}, v.deps, sign=v.sign, neg=v.neg, lb=v.lb, ub=v.ub)
+                v = Abs(v.k - {"unbound"}, v.deps, sign=v.sign, neg=v.neg, lb=v.lb, ub=v.ub, lin=v.lin, mono=v.mono)
             gl = g[self.gbase[-1]:] if self.gbase else g
             if gl and isinstance(v, Abs) and v.k <= NUM | {"bool"}:
                 if self.defstack and n.id in self.defstack[-1] and self.rematerialising < 4:
@@ -723,7 +769,7 @@ class Interp:
                         lb = lw if lv is None or (lw is not None and lw > lv) else lv
                         ub = uw if uv is None or (uw is not None and uw < uv) else uv
                         if (sg, lb, ub) != (sign_of(v), lv, uv):
-                            v = Abs(v.k, v.deps, sym=v.sym, cap=v.cap, sign=sg, neg=v.neg, lb=lb, ub=ub)
+                            v = Abs(v.k, v.deps, sym=v.sym, cap=v.cap, sign=sg, neg=v.neg, lb=lb, ub=ub, lin=v.lin, mono=v.mono)
                 v = self.refine(n.id, v, env, gl)
             return v
         mod = self.modstack[-1]
@@ -887,7 +933,20 @@ class Interp:
                 sg = "pos"
         else:
             sg, ng = self.sign_binop(n, op, a, b, g)
-        return Abs(arith_kinds(op, ka, kb, b), deps, sign=sg, neg=ng, lb=lb, ub=ub)
+        lin = lin_binop(op, a, b)
+        mono = None
+        if lin is None:
+            ma, mb = mono_of(a), mono_of(b)
+            lb2, la2 = lin_of(b), lin_of(a)
+            if isinstance(op, ast.Add) and ma and mb:
+                mono = "inc"
+            elif isinstance(op, ast.Sub) and ma and lb2 is not None and lb2[0] <= 0:
+                mono = "inc"
+            elif isinstance(op, ast.Mult) and ((ma and lb2 is not None and lb2[0] == 0 and lb2[1] >= 0) or (mb and la2 is not None and la2[0] == 0 and la2[1] >= 0)):
+                mono = "inc"
+            elif isinstance(op, ast.Div) and ma and lb2 is not None and lb2[0] == 0 and lb2[1] > 0:
+                mono = "inc"
+        return Abs(arith_kinds(op, ka, kb, b), deps, sign=sg, neg=ng, lb=lb, ub=ub, lin=lin, mono=mono)
 
     def sign_binop(self, n, op, a, b, g, quiet=False):
         """(sign, origins) of an arithmetic result.  A difference is non-negative only under a dominating guard
@@ -1345,7 +1404,8 @@ class Interp:
             sg = sign_of(args[0]) if args else None
             if fname == "int" and sg == "pos":
                 sg = "nonneg"
-            return Abs({fname}, deps, sign=sg if fname in ("float", "int") else None, neg=neg_of(args[0]) if args and fname in ("float", "int") else frozenset())
+            return Abs({fname}, deps, sign=sg if fname in ("float", "int") else None, neg=neg_of(args[0]) if args and fname in ("float", "int") else frozenset(),
+                       lin=lin_of(args[0]) if args and fname == "float" else None, mono=mono_of(args[0]) if args and fname == "float" else None)
         if fname == "len":
             return Abs({"int"}, deps)
         if fname == "round":
@@ -1629,7 +1689,7 @@ def _with_ctrl(v, ctrl):
     control dependence (kept separate from value deps through the 'ctrl:' prefix)"""
     extra = frozenset("ctrl:" + d if not d.startswith("ctrl:") else d for d in ctrl)
     if isinstance(v, Abs):
-        return Abs(v.k, v.deps | extra, sym=None, cap=None, sign=v.sign, neg=v.neg, lb=v.lb, ub=v.ub)
+        return Abs(v.k, v.deps | extra, sym=None, cap=None, sign=v.sign, neg=v.neg, lb=v.lb, ub=v.ub, lin=v.lin, mono=v.mono)
     if isinstance(v, OneOf):
         return OneOf(v.vals, v.deps | extra)
     return v
